@@ -1,5 +1,102 @@
-use serde_json::Value;
+use crate::ops::cps;
+use serde_json::{json, Value};
+use std::collections::HashMap;
+use text_utils::tokenization::{
+    BPETokenizer, BPETokenizerConfig, ByteGroups, ByteTokenizer, ByteTokenizerConfig, CharTokenizer, CharTokenizerConfig,
+    GroupAggregation, SpecialConfig, Tokenize, TokenizationInfo, TokenGroup,
+};
+use text_utils::utils::SerializeMsgPack;
 
-pub fn dispatch(op: &str, _req: &Value) -> Result<Value, String> {
-    Err(format!("unknown op {op}"))
+fn strs(v: &Value) -> Vec<String> {
+    v.as_array().unwrap().iter().map(|x| x.as_str().unwrap().to_string()).collect()
+}
+
+pub fn build(shape: &Value) -> Result<Box<dyn Tokenize>, String> {
+    let special = SpecialConfig {
+        pad: shape["pad"].as_str().ok_or("pad")?.to_string(),
+        tokens: strs(&shape["tokens"]),
+        prefix: strs(&shape["prefix"]),
+        suffix: strs(&shape["suffix"]),
+    };
+    let g = shape["g"].as_bool().unwrap_or(false);
+    match shape["kind"].as_str().ok_or("kind")? {
+        "byte" => {
+            let cfg = ByteTokenizerConfig {
+                use_graphemes: g,
+                pad_to_multiple_of: shape["pad_to"].as_u64().map(|x| x as usize),
+                groups: if shape["groups"].as_str() == Some("CodePoints") { ByteGroups::CodePoints } else { ByteGroups::Bytes },
+                aggregation: if shape["agg"].as_str() == Some("Sum") { GroupAggregation::Sum } else { GroupAggregation::Mean },
+            };
+            Ok(Box::new(ByteTokenizer::new(cfg, special).map_err(|e| e.to_string())?))
+        }
+        "char" => {
+            let cfg = CharTokenizerConfig { use_graphemes: g, unk_token: "<unk>".to_string() };
+            Ok(Box::new(CharTokenizer::new(cfg, special).map_err(|e| e.to_string())?))
+        }
+        _ => {
+            let mut merges: HashMap<Vec<u8>, u32> = HashMap::new();
+            for e in shape["merges"].as_array().ok_or("merges")? {
+                let k: Vec<u8> = e[0].as_array().unwrap().iter().map(|b| b.as_u64().unwrap() as u8).collect();
+                merges.insert(k, e[1].as_u64().unwrap() as u32);
+            }
+            let dir = std::env::var("VERIF_SCRATCH").unwrap_or("/var/tmp/verif-scratch".to_string());
+            let path = std::path::PathBuf::from(dir).join(format!("merges-{}.bin", std::process::id()));
+            merges.save(&path).map_err(|e| e.to_string())?;
+            let cfg = BPETokenizerConfig {
+                merge_file: path.clone(),
+                max_vocab_size: shape["max_vocab_size"].as_u64().map(|x| x as usize),
+                use_graphemes: g,
+            };
+            let t = BPETokenizer::new(cfg, special).map_err(|e| e.to_string());
+            let _ = std::fs::remove_file(&path);
+            Ok(Box::new(t?))
+        }
+    }
+}
+
+fn group_json(g: &TokenGroup) -> Value {
+    match g {
+        TokenGroup::Empty(n) => json!({"Empty": n}),
+        TokenGroup::Full(n) => json!({"Full": n}),
+        TokenGroup::Nested(gs) => json!({"Nested": gs.iter().map(group_json).collect::<Vec<_>>()}),
+    }
+}
+
+pub fn dispatch(op: &str, req: &Value) -> Result<Value, String> {
+    match op {
+        "vocab_query" => {
+            let tok = build(&req["shape"])?;
+            let token: String = req["token"].as_array().ok_or("token")?.iter().map(|c| char::from_u32(c.as_u64().unwrap() as u32).unwrap()).collect();
+            let id = req["id"].as_u64().ok_or("id")? as u32;
+            let vocab = tok.get_vocab().map_err(|e| e.to_string())?;
+            let t2i = tok.token_to_id(&token);
+            let single = match t2i { Some(i) => match tok.de_tokenize(&[i], true) { Ok(s) => json!({"Ok": cps(&s)}), Err(_) => json!({"Err": true}) }, None => json!(null) };
+            Ok(json!({
+                "vocab_size": tok.vocab_size(), "vocab": vocab, "id_to_token": tok.id_to_token(id), "token_to_id": t2i,
+                "pad": tok.pad_token_id(), "prefix": tok.prefix_token_ids(), "suffix": tok.suffix_token_ids(),
+                "decode_single": single,
+            }))
+        }
+        "tokenize_roundtrip" => {
+            let tok = build(&req["shape"])?;
+            let text: String = req["text"].as_array().ok_or("text")?.iter().map(|c| char::from_u32(c.as_u64().unwrap() as u32).unwrap()).collect();
+            let ign = req["ign"].as_bool().ok_or("ign")?;
+            let t = tok.tokenize(&text, ign).map_err(|e| e.to_string())?;
+            let dec_ign = req.get("dec_ign").and_then(|v| v.as_bool()).unwrap_or(false);
+            let dec = match tok.de_tokenize(&t.token_ids, dec_ign) { Ok(s) => json!({"Ok": cps(&s)}), Err(_) => json!({"Err": true}) };
+            let groups = match &t.info {
+                TokenizationInfo::TokenGroups(m) => {
+                    let mut o = serde_json::Map::new();
+                    for (k, (gs, agg)) in m {
+                        o.insert(k.clone(), json!({"groups": gs.iter().map(group_json).collect::<Vec<_>>(),
+                            "agg": if *agg == GroupAggregation::Mean { "Mean" } else { "Sum" }}));
+                    }
+                    Value::Object(o)
+                }
+                _ => json!(null),
+            };
+            Ok(json!({"ids": t.token_ids, "decoded": dec, "groups": groups}))
+        }
+        _ => crate::ops12::dispatch(op, req),
+    }
 }
